@@ -344,6 +344,11 @@ def render(rep):
                  for b in rep["builders"] + rep["helpers"] if b["cls"].endswith("QueryBuilder") and "Create" not in b["cls"]
                  and "Drop" not in b["cls"]) + "]")
     w("")
+    w("/-- (class, @builder method, attributes of `self` it loads) — CREATE TABLE builders -/")
+    w("def ddlReads : List (Str × Str × List Str) := [")
+    w(",\n".join("  (%s, %s, [%s])" % (lean_s(b["cls"]), lean_s(b["method"]), ", ".join(lean_s(x) for x in b["reads"]))
+                 for b in rep["builders"] if b["cls"] in ("CreateQueryBuilder", "VerticaCreateQueryBuilder")) + "]")
+    w("")
     w("/-- (class, observation method, effects, set-typed attributes it iterates) -/")
     w("def observerEffects : List (Str × Str × List Eff × List Str) := [")
     w(",\n".join("  (%s, %s, %s, [%s])" % (lean_s(o["cls"]), lean_s(o["method"]), effs(o["effects"]),
